@@ -61,6 +61,27 @@ def step (toks : List String) : Option String :=
   | ["h1.readres", m, s] => do let m ← unhex m; let b ← unhex s; pure (showR (readResponse m b))
   | ["h1.readreqs", s] => (unhex s).map fun b => showStream (readAllRequests b)
   | ["h1.readress", ms, s] => do let ms ← unhexList ms; let b ← unhex s; pure (showStream (readResponses ms b))
+  -- relay: input bytes, then the bytes the real writer produced (appended by the harness)
+  | ["h1.wirereq", s, w] => do
+      let b ← unhex s; let w ← unhex w
+      pure (match readRequest b with
+        | .complete p _ =>
+          (match relayRequest p with
+           | none => "out-of-model"
+           | some x =>
+             let pred := readRequest x.wire
+             showR pred ++ " w=" ++ b01 (pred == readRequest w))
+        | e => if (readRequestHead b).isComplete then "body-error" else showR e)
+  | ["h1.wireres", m, closing, s, w] => do
+      let m ← unhex m; let b ← unhex s; let w ← unhex w
+      pure (match readResponse m b with
+        | .complete p _ =>
+          (match relayResponse m (closing == "1") p with
+           | none => "out-of-model"
+           | some x =>
+             let pred := readResponse m x.wire
+             showR pred ++ " w=" ++ b01 (pred == readResponse m w))
+        | e => if (readResponseHead m b).isComplete then "body-error" else showR e)
   | _ => none
 
 end Martian.Drv.Http1
